@@ -142,6 +142,14 @@ func mintPool() {
 	if odd := unknownSigAlg(pki.Mint(leaf("leaf-unknown-sigalg"), i2)); odd != nil {
 		add("leaf", odd)
 	}
+	// CA-issued certificates without any basic-constraints extension - one of them with the
+	// keyCertSign key usage: without the extension saying CA=true a certificate is not a CA
+	sp = leaf("leaf-no-basic-constraints")
+	sp.NoBasicConstraints = true
+	add("leaf", pki.Mint(sp, i2))
+	sp = leaf("leaf-certsign-no-basic-constraints")
+	sp.NoBasicConstraints, sp.KeyUsage, sp.EKU = true, x509.KeyUsageCertSign|x509.KeyUsageDigitalSignature, nil
+	add("leaf", pki.Mint(sp, r1))
 	add("ssleaf", pki.Mint(leaf("ssleaf0"), nil))
 	sp = leaf("ssleaf1")
 	sp.EKU = nil
